@@ -3,10 +3,13 @@ package props
 import (
 	"errors"
 	"fmt"
+	"io"
 	"math"
+	"os"
 	"strconv"
 	"strings"
 	"sync/atomic"
+	"syscall"
 
 	"github.com/Tom-Johnston/mamba/tsp"
 	"pgregory.net/rapid"
@@ -72,6 +75,16 @@ func genHugeTspCase(t *rapid.T) tspCase {
 
 var errInjected = errors.New("injected write failure")
 
+// temporaryErr looks like a network error that invites a retry.
+type temporaryErr struct{}
+
+func (temporaryErr) Error() string   { return "injected temporary failure" }
+func (temporaryErr) Temporary() bool { return true }
+func (temporaryErr) Timeout() bool   { return true }
+
+// the errors a failing Write returns: the property speaks of "any write ... fails", whatever the error value is
+var faultErrors = []error{errInjected, io.ErrShortWrite, temporaryErr{}, syscall.EAGAIN, syscall.EINTR, os.ErrDeadlineExceeded, io.EOF, io.ErrClosedPipe}
+
 // faultWriter records what it accepts and fails according to a schedule.
 type faultWriter struct {
 	buf       []byte
@@ -81,6 +94,7 @@ type faultWriter struct {
 	partial   bool // accept half of the bytes of a failing call
 	full      bool // accept all the bytes of a failing call and still report an error (allowed by io.Writer)
 	failed    int
+	err       error // what a failing call returns (nil = errInjected)
 }
 
 func (w *faultWriter) Write(p []byte) (int, error) {
@@ -96,6 +110,9 @@ func (w *faultWriter) Write(p []byte) (int, error) {
 			n = len(p)
 		}
 		w.buf = append(w.buf, p[:n]...)
+		if w.err != nil {
+			return n, w.err
+		}
 		return n, errInjected
 	}
 	w.buf = append(w.buf, p...)
@@ -255,7 +272,7 @@ func checkTspCase(c tspCase, rec *Rec) error {
 			for _, partial := range []bool{vr[1]} {
 				if !perm && !partial {
 					// third count variant for transient failures: every byte accepted, error returned all the same
-					fw := &faultWriter{failAt: f, full: true}
+					fw := &faultWriter{failAt: f, full: true, err: faultErrors[(f+3)%len(faultErrors)]}
 					var ferr error
 					if p := try(func() { ferr = tsp.LIB(fw, n, weights) }); p != nil {
 						return fmt.Errorf("LIB(n=%d) panicked with write #%d failing: %v", n, f, p)
@@ -265,7 +282,14 @@ func checkTspCase(c tspCase, rec *Rec) error {
 						return fmt.Errorf("LIB(n=%d) returned nil although write #%d of %d returned an error (with a full byte count)", n, f, W)
 					}
 				}
-				fw := &faultWriter{failAt: f, permanent: perm, partial: partial}
+				kind := f
+				if perm {
+					kind++
+				}
+				if partial {
+					kind += 2
+				}
+				fw := &faultWriter{failAt: f, permanent: perm, partial: partial, err: faultErrors[kind%len(faultErrors)]}
 				var ferr error
 				if p := try(func() { ferr = tsp.LIB(fw, n, weights) }); p != nil {
 					return fmt.Errorf("LIB(n=%d) panicked with write #%d failing: %v", n, f, p)
@@ -275,8 +299,24 @@ func checkTspCase(c tspCase, rec *Rec) error {
 					return fmt.Errorf("harness: write #%d of %d was never reached under the fault schedule", f, W)
 				}
 				if ferr == nil {
-					return fmt.Errorf("LIB(n=%d) returned nil although write #%d of %d failed (permanent=%v, partial=%v); %d bytes reached the writer instead of %d",
-						n, f, W, perm, partial, len(fw.buf), len(ok.buf))
+					return fmt.Errorf("LIB(n=%d) returned nil although write #%d of %d failed with %q (permanent=%v, partial=%v); %d bytes reached the writer instead of %d",
+						n, f, W, fw.err, perm, partial, len(fw.buf), len(ok.buf))
+				}
+			}
+		}
+	}
+	// small outputs: every kind of error value at every write index (transient, half of the bytes accepted)
+	if W <= 80 {
+		for f := 0; f < W; f++ {
+			for _, e := range faultErrors {
+				fw := &faultWriter{failAt: f, partial: true, err: e}
+				var ferr error
+				if p := try(func() { ferr = tsp.LIB(fw, n, weights) }); p != nil {
+					return fmt.Errorf("LIB(n=%d) panicked with write #%d failing with %q: %v", n, f, e, p)
+				}
+				sched++
+				if ferr == nil {
+					return fmt.Errorf("LIB(n=%d) returned nil although write #%d of %d failed once with %q (half of the bytes accepted); the writer received %q", n, f, W, e, clip(string(fw.buf), 300))
 				}
 			}
 		}
